@@ -330,7 +330,8 @@ def ts_to_tcls(ts: Any) -> TCls:
     return TCls(ts[0], [ts_to_tcls(a) for a in ts[1:]])
 
 
-def opaque_value(ts: Any, name: str) -> Obj:
+def opaque_value(ts: Any, name: str, none: bool = False) -> Obj:
+    """A value of the type whose leaves are symbols.  Options are Some(...) (or None when `none`), lists have two elements, unions are opaque."""
     tc = ts_to_tcls(ts)
     q = TYPECLS.get(tc.prim, f'{T}.base.MichelsonType')
     if tc.prim == 'pair':
@@ -338,7 +339,9 @@ def opaque_value(ts: Any, name: str) -> Obj:
         return Obj(q, {'items': kids, '_t': tc}, tag=name)
     if tc.prim == 'list':
         return Obj(q, {'items': [opaque_value(ts[1], f'{name}_{i}') for i in range(2)], '_t': tc}, tag=name)
-    field = {'or': 'items', 'option': 'item', 'set': 'items', 'map': 'items', 'big_map': 'items'}.get(tc.prim, 'value')
+    if tc.prim == 'option':
+        return Obj(q, {'item': None if none else opaque_value(ts[1], f'{name}_some'), '_t': tc}, tag=name)
+    field = {'or': 'items', 'set': 'items', 'map': 'items', 'big_map': 'items'}.get(tc.prim, 'value')
     return Obj(q, {field: Sym(name, meta_prim=tc.prim), '_t': tc}, tag=name)
 
 
@@ -365,11 +368,17 @@ L1_ARGS = {
 
 
 def run_l1(repo: Repo, prim: str, nargs: int, ins: List[str], context: Any = None) -> Tuple[Optional[str], List[PathResult], List[Obj]]:
+    """Runs the instruction on one stack per variant of its option-typed operands (Some / None); the paths of all variants are returned."""
     q = find_class(repo, prim, nargs)
     if q is None:
         return None, [], []
-    items = [opaque_value(parse_type(s), f's{i}') for i, s in enumerate(ins)]
     sentinels = [opaque_value(('mutez',), 'z0'), opaque_value(('key',), 'z1')]
-    args: List[Any] = L1_ARGS[prim]() if prim in L1_ARGS else [TCls(VARS['ty'], []) for _ in range(nargs)]
-    res = run_typed(repo, q, items + sentinels, args, opaque_types=True, context=context, max_paths=200)
-    return q, res, sentinels
+    types = [parse_type(s) for s in ins]
+    opt = [i for i, ts in enumerate(types) if ts[0] == 'option']
+    out: List[PathResult] = []
+    for mask in range(1 << len(opt)):
+        nones = {opt[j] for j in range(len(opt)) if mask >> j & 1}
+        items = [opaque_value(ts, f's{i}', none=i in nones) for i, ts in enumerate(types)]
+        args: List[Any] = L1_ARGS[prim]() if prim in L1_ARGS else [TCls(VARS['ty'], []) for _ in range(nargs)]
+        out += run_typed(repo, q, items + sentinels, args, opaque_types=True, context=context, max_paths=200)
+    return q, out, sentinels
